@@ -25,7 +25,7 @@ CAUGHT = {
     "C12-4": {"C12": "violation"}, "C13-4": {"C13": "violation"}, "C14-4": {"C14": "violation"}, "C15-4": {"C15": "violation"},
     "C16-4": {"C16": "violation"}, "C17-4": {"C17": "violation"}, "C18-4": {"C18": "violation"}, "C19-4": {"C19": "violation"},
     "C20-4": {"C20": "violation"},
-    "C01-5": {"C02": "violation", "C01": "not reported (key rotation inside a world history is not modelled; the key-generation priming of C02 sees it)"},
+    "C01-5": {"C02": "violation", "C01": "violation (since round 8: key rotation inside a history, segments)"},
     "C02-5": {"C02": "violation"}, "C03-5": {"C03": "violation"}, "C04-5": {"C04": "violation"}, "C05-5": {"C05": "violation"},
     "C06-5": {"C06": "violation"}, "C07-5": {"C07": "violation"}, "C08-5": {"C08": "violation", "C14": "violation"},
     "C09-5": {"C09": "violation", "C04": "violation"}, "C10-5": {"C10": "violation"}, "C11-5": {"C15": "violation", "C11": "violation"},
@@ -37,6 +37,8 @@ CAUGHT = {
     "C09-6": {"C09": "violation"}, "C10-6": {"C10": "violation"}, "C11-6": {"C11": "violation"}, "C12-6": {"C12": "violation"},
     "C13-6": {"C13": "violation"}, "C14-6": {"C14": "violation"}, "C15-6": {"C15": "violation"}, "C16-6": {"C16": "violation"},
     "C17-6": {"C17": "violation"}, "C18-6": {"C18": "violation"}, "C19-6": {"C19": "violation"}, "C20-6": {"C20": "violation"},
+    "C01-8": {"C01": "violation"}, "C02-8": {"C02": "violation"}, "C03-8": {"C03": "violation"}, "C04-8": {"C04": "violation"}, "C05-8": {"C05": "violation"}, "C06-8": {"C06": "violation"}, "C07-8": {"C07": "violation"}, "C08-8": {"C08": "violation"}, "C09-8": {"C09": "violation"}, "C10-8": {"C10": "violation"},
+    "C11-8": {"C11": "violation"}, "C12-8": {"C12": "violation"}, "C13-8": {"C13": "violation"}, "C14-8": {"C14": "violation"}, "C15-8": {"C15": "violation"}, "C16-8": {"C16": "violation"}, "C17-8": {"C17": "violation"}, "C18-8": {"C18": "violation"}, "C19-8": {"C19": "violation"}, "C20-8": {"C20": "tie (the change alters the signature of discoverProviderMetadata: the discovery harness no longer compiles; the long-outage case that would show it is in the thorough tier)"},
     "C01-7": {"C01": "violation"}, "C02-7": {"C02": "violation"}, "C03-7": {"C03": "violation"}, "C04-7": {"C04": "violation"}, "C05-7": {"C05": "violation"}, "C06-7": {"C06": "violation"}, "C07-7": {"C07": "violation"}, "C08-7": {"C08": "violation"}, "C09-7": {"C09": "violation"}, "C10-7": {"C10": "violation"},
     "C11-7": {"C11": "violation"}, "C12-7": {"C12": "violation"}, "C13-7": {"C13": "violation"}, "C14-7": {"C14": "violation"}, "C15-7": {"C15": "violation"}, "C16-7": {"C16": "violation"}, "C17-7": {"C17": "violation"}, "C18-7": {"C18": "violation"}, "C19-7": {"C19": "violation"}, "C20-7": {"C20": "violation"},
 }
